@@ -111,7 +111,14 @@ func H_C16_verify() {
 	vAssume(err == nil)
 	content := vBlob("content")
 	sig := vBlobN("sig", 0, 140)
-	res := verifier.Verify(content, sig)
+	var res error
+	if vChoose("entry", 2) == 0 {
+		res = verifier.Verify(content, sig)
+	} else {
+		dv, isDV := verifier.(DigestVerifier)
+		vAssume(isDV)
+		res = dv.VerifyDigest(vHash(refHashOfAlg(int64(alg)), content), sig)
+	}
 	if len(sig) != 2*n {
 		vAssert("verify: wrong length is ErrVerification", res == ErrVerification)
 		vReach("wrong length")
@@ -152,8 +159,10 @@ func H_C16_verify_exact() {
 	r, s := vEcdsaSign(key, digest)
 	good := append(refFixed(r, n), refFixed(s, n)...)
 	var sig []byte
-	mode := vChoose("mode", 6)
+	mode := vChoose("mode", 7)
 	switch mode {
+	case 6: // zero octets between the halves: r || 0^k || s
+		sig = append(append(append([]byte{}, refFixed(r, n)...), make([]byte, 1+vChoose("gap", 3))...), refFixed(s, n)...)
 	case 0:
 		sig = good
 	case 1: // trailing bytes
@@ -171,7 +180,14 @@ func H_C16_verify_exact() {
 	case 5: // truncated
 		sig = good[:2*n-1]
 	}
-	res := verifier.Verify(content, sig)
+	var res error
+	if vChoose("entry", 2) == 0 {
+		res = verifier.Verify(content, sig)
+	} else {
+		dv, isDV := verifier.(DigestVerifier)
+		vAssume(isDV)
+		res = dv.VerifyDigest(digest, sig)
+	}
 	if mode == 0 {
 		vAssert("exact: a genuine signature in fixed-width form verifies", res == nil)
 	} else {
